@@ -66,15 +66,19 @@ func (l *EventsLoader) LoadAndVerify(ctx context.Context, rawEvents []json.RawMe
 		events = append(events, event)
 	}
 
-	loaded := len(events)
-	events = ReverseTopologicalOrdering(events, sortOrder)
-	// The ordering returns each distinct event once. Further copies of an event
-	// that was listed more than once get a result of their own, after the
-	// events and before the load errors.
-	for i := len(events); i < loaded; i++ {
-		results[i] = EventLoadResult{
-			Error: fmt.Errorf("gomatrixserverlib: event is listed more than once"),
-		}
+	// The ordering returns each distinct event once. An event that was listed
+	// more than once still gets a result per copy, and each copy is judged on
+	// its own: one of them may carry a damaged signature and the other not.
+	// The copies take the place of the event in the ordering.
+	copies := make(map[string][]PDU, len(events))
+	for _, event := range events {
+		copies[event.EventID()] = append(copies[event.EventID()], event)
+	}
+	ordered := ReverseTopologicalOrdering(events, sortOrder)
+	events = make([]PDU, 0, len(events))
+	for _, event := range ordered {
+		events = append(events, copies[event.EventID()]...)
+		delete(copies, event.EventID())
 	}
 	// assign the errors to the end of the slice
 	for i := 0; i < len(errs); i++ {
